@@ -446,3 +446,40 @@ M("C06", "M06-2-union-pruning-guard", dict(
     checks=[("last_is", "all_readfreq", "term_union", True), ("reach", "term_union")]),
   title="union top-K: the block-WAND union is only built on the `all scorers read frequencies` branch",
   functions=["boolean_weight::scorer_union"], bounds="")
+
+M("C02", "M02-4-uncommitted-merge-target", dict(
+    root=SU + r"consider_merge_options$", depth=1, unroll=2, inline=[], auto_inline=False,
+    events={"stamp": {"call": r"Stamper::stamp$"},
+            "uncommitted_closure": {"stmt": r"closure@.*\} \{ .*current_opstamp: (?:copy|move) (_\d+)"},
+            "unstamped_closure": {"stmt": r"closure@.*\} \{ .*current_opstamp: (?:copy|move) (_\d+)", "group_local_not_from_call": r"Stamper::stamp$"},
+            "ret": {"ret": True}},
+    absent_ok_events=["unstamped_closure"],
+    checks=[("reach", "uncommitted_closure"), ("precedes", "stamp", "uncommitted_closure"), ("never", "unstamped_closure")]),
+  title="merges of uncommitted segments get a freshly drawn opstamp as their delete target (so every pending delete is applied to all sources before they are merged)",
+  functions=["SegmentUpdater::consider_merge_options"], bounds="")
+
+# ---------------------------------------------------------------------------------------------
+# C11: no storage / thread result is dropped unexamined (catches `let _ = ...`, `.is_err()`-only
+# inspections, results of join() thrown away) on the writer / updater / store / directory paths.
+# The allow list is the exact set of documented sinks of the pinned tree.
+# ---------------------------------------------------------------------------------------------
+SINKS = [
+    (r"schedule_commit::\{closure#0\}$", r"^std::result::Result<directory::GarbageCollectionResult, error::TantivyError>$"),   # `let _ = garbage_collect_files(..)`
+    (r"end_merge::\{closure#1\}$", r"^std::result::Result<directory::GarbageCollectionResult, error::TantivyError>$"),
+    (r"schedule_task::\{closure#0\}$", r"oneshot::SendError"),                                   # receiver gone
+    (r"start_merge::\{closure#0\}$", r"oneshot::SendError"),
+    (r"store_compressor::.*::send$", r"mpmc::SendError"),                                         # turned into an io::Error right there
+    (r"send_add_documents_batch$", r"crossbeam_channel::SendError"),
+    (r"index_writer::.*::rollback$", r"crossbeam_channel::Receiver"),                             # operation_receiver(): drained when Ok
+    (r"index_writer::<impl at [^>]*>::drop$", r"std::boxed::Box<dyn std::any::Any"),               # Drop cannot report
+    (r"segment_updater::save_metas$", r"serde_json::Error"),                                      # debug! formatting only
+]
+M("C11", "M11-5-no-dropped-results", dict(
+    kind="scan",
+    scope=[r"^indexer::segment_updater", r"^indexer::index_writer", r"^indexer::prepared_commit", r"^indexer::segment_serializer",
+           r"^indexer::segment_writer::<impl [^>]*>::finalize", r"^store::store_compressor", r"^store::writer",
+           r"^directory::managed_directory", r"^directory::footer", r"^reader::<impl"],
+    events={"dropped_result": {"drop_type": r"^std::result::Result<", "allow": SINKS}},
+    checks=[("never", "dropped_result")], unroll=1),
+  title="on the writer / updater / store / directory / reader paths no `Result` is dropped without being matched or propagated, except the documented sinks (GC after commit / merge, closed channels, Drop)",
+  functions=[], bounds="unroll 1, per function")
